@@ -461,6 +461,7 @@ def handleCurve (e : EEnv) (cache : Cache) (w : Nat) (op : String) (args : List 
     let q ← parsePoint q
     let k ← pI k
     let m ← pI m
+    let v := (v.splitOn ".").headD v          -- suffix .p / .q: the result object is an operand; the value is the same
     let p := if v == "gen" then e.g else p0
     cls (fmtPoint (BinFast.add c (mulC p k) (mulC q m)))
   | "eb_nsim", _ :: n :: rest => do
@@ -519,7 +520,7 @@ def updCache (ee : Option EEnv) (cache : Cache) (op : String) (args : List Strin
   | some e =>
     let toks := match op, args with
       | "ebm", [v, _, p, _] => if v == "gen" then [] else [p]
-      | "ebs", [v, p, _, q, _] => if v == "gen" then [q] else [p, q]
+      | "ebs", [v, p, _, q, _] => if (v.splitOn ".").headD v == "gen" then [q] else [p, q]
       | _, _ => []
     let pts := (toks.filterMap parsePoint) ++ (if op == "ebm" || op == "ebs" then [e.g] else [])
     pts.foldl (fun cache p =>
